@@ -153,7 +153,7 @@ def simd_jobs(tier):
                       unwind=5, kind="bounded", bound="tiny rectangle (<= 2x1) inside 8-word buffers, bpp 0..32", extra_sources=RL,
                       functions=["sse2_" + which.lower()],
                       domain="same guard obligations with arguments that keep wrongly admitted requests inside the unwinding bounds",
-                      timeout=400, min_props=2))
+                      timeout=900, min_props=2))
     return js
 
 
